@@ -98,8 +98,12 @@ def worker(job):
             env = common.clean_env()
             rp = {"tree": [n.to_json() for n in nodes], "root": spelling}
             # (a) -print0, unsorted: multiset ; sorted: sequence
+            # the trees contain no links, so -H/-L/-follow must not change a single byte
+            flag = rng.choice([[], [], ["-H"], ["-L"], ["-P"]])
+            follow_opt = ["-follow"] if rng.random() < 0.15 else []
+            st.inc("follow_flag:" + ("".join(flag + follow_opt) or "none"))
             for mode in ("print0", "print0-sorted", "print-sorted", "fprint0"):
-                args = [common.FIND, spelling]
+                args = [common.FIND] + flag + [spelling] + follow_opt
                 if "sorted" in mode:
                     args.append("-sorted")
                 if mode == "fprint0":
@@ -134,7 +138,7 @@ def worker(job):
             # (c) the pipe into xargs -0
             log = os.path.join(sb, "rec.log")
             env2 = common.clean_env({"VERIF_REC_LOG": log})
-            p1 = subprocess.Popen([common.FIND, spelling, "-sorted", "-print0"], cwd=sb, env=env, stdout=subprocess.PIPE, stderr=subprocess.PIPE)
+            p1 = subprocess.Popen([common.FIND] + flag + [spelling] + follow_opt + ["-sorted", "-print0"], cwd=sb, env=env, stdout=subprocess.PIPE, stderr=subprocess.PIPE)
             nper = rng.choice([None, 1, 3])
             xa = [common.XARGS, "-0"] + (["-n", str(nper)] if nper else []) + [common.REC, "--"]
             p2 = subprocess.Popen(xa, cwd=sb, env=env2, stdin=p1.stdout, stdout=subprocess.PIPE, stderr=subprocess.PIPE)
